@@ -42,7 +42,7 @@ def r17a(ctx, rep, cr):
     # the tie-break may live in merge's decision closure instead of supersedes itself
     merge_reads = {}
     for h in A.with_closures(cr.fns, LW + '::merge'):
-        if h.name == LW + '::merge' or not A.calls_to(h, GS + '::supersedes'):
+        if not A.calls_to(h, GS + '::supersedes'):
             continue
         for b in h.bbs:
             if b['cleanup']:
@@ -133,6 +133,14 @@ def r17c(ctx, rep, cr):
         cd = A.control_deps(f)
         nc = A.necessary_condition_sources(f, w[0], defs, cd)
         ok = False
+        # new_incarnation > old, however it is spelled (inline, a named bool, a match on the looked-up value, a closure predicate)
+        for at in lib.must_pass_atoms(cr.fns, f, defs, w[0]):
+            if at.kind == 'cmp' and at.op in ('Gt', 'Lt'):
+                deep = set()
+                for sl_ in at.side_slices():
+                    deep |= lib.slice_fields_deep(cr.fns, sl_, 'tensor_chain::', depth=1)
+                if FIELD in deep:
+                    ok = True
         for (a, s, sl) in nc:
             if any(c.endswith('is_some_and') or c.endswith('map_or') for c in sl.calls):
                 # the closure compares new > old
@@ -152,7 +160,7 @@ def r17c(ctx, rep, cr):
         ins = [c for c in A.calls_to(m, ('re', r'HashMap::<K, V, S, A>::insert$'))]
         if not ins:
             rep.violation('R17c', m, 'insert', m.loc(), 'anchor-missing: merge no longer inserts states')
-        sup_closure = any(A.calls_to(h, GS + '::supersedes') for h in A.with_closures(cr.fns, m.name))
+        sup_closure = any(A.calls_to(h, GS + '::supersedes') for h in A.with_closures(cr.fns, m.name))   # merge itself included
         for k, c in enumerate(ins):
             nc = A.necessary_condition_sources(m, c.bb, defs, cd)
             ok = any(any(x.endswith('map_or') or x.endswith('supersedes') or x.endswith('is_none_or') for x in sl.calls) for (_, _, sl) in nc) and sup_closure
@@ -170,13 +178,28 @@ def r17d(ctx, rep, cr):
                      'opposite orders keep different views')
     n = 0
     for h in A.with_closures(cr.fns, LW + '::merge'):
-        if h.name == LW + '::merge':
-            continue
         sup = A.calls_to(h, GS + '::supersedes')
         if not sup:
             continue
         n += 1
         rep.analysed(h)
+        if h.name == LW + '::merge':
+            # the decision is written in merge itself: an incoming state is stored only after supersedes was consulted,
+            # or when nothing is held for that member (the absent outcome of the lookup)
+            uses = A.Uses(h)
+            absent = set()
+            for c in A.calls_to(h, ('re', r'HashMap::<K, V, S, A>::get$')):
+                absent |= A.call_outcome(h, c, uses).err
+            ins = A.calls_to(h, ('re', r'HashMap::<K, V, S, A>::insert$'))
+            R = A.reachable(h, [0], cut_blocks={c.bb for c in sup}, cut_edges=absent)
+            bad = [c for c in ins if c.bb in R]
+            if bad:
+                rep.violation('R17d', h, 'decision-before-order', h.loc(bad[0].line),
+                              'an incoming state can replace a held one on a path that did not consult supersedes: that path depends on '
+                              'the held state alone, and merge stops being independent of arrival order')
+            else:
+                rep.holds('R17d', h, 'supersedes must-pass', 'decision written in merge itself')
+            continue
         R = A.reachable(h, [0], cut_blocks={c.bb for c in sup})
         rets = [r for r in A.return_blocks(h) if r in R]
         if rets:
